@@ -175,16 +175,6 @@ def findAnswerV1 (v : View) (control qnameOut : Bytes) (qtype : Nat) : Nat → B
 
 /-! ### the closest-key search of the v2 layout (`sortedDataReader.find`) -/
 
-/-- `getLengthWithoutLastLabel(qName, qLength)`: byte-typed counter `i` -/
-def lengthWithoutLastLabel (q : Bytes) (qLength : Nat) : Nat → Nat → Nat → Option Nat
-  | 0, _, last => some (last + 1)
-  | fuel + 1, i, last =>
-    if i < (qLength % 256 + 255) % 256 then
-      match q[i]? with
-      | none => none
-      | some n => lengthWithoutLastLabel q qLength fuel ((i + n.toNat + 1) % 256) i
-    else some (last + 1)
-
 /-- state threaded through `find`'s callbacks -/
 structure FindSt (σ : Type) where
   user : σ
